@@ -17,6 +17,8 @@ git checkout -- . >>"$LOG" 2>&1
 git clean -fdq >>"$LOG" 2>&1
 (cd "$OUT/demo" && find . -type f ! -name README.md | while read f; do mkdir -p "$WT/$(dirname "$f")"; cp "$f" "$WT/$f"; done)
 export CARGO_TARGET_DIR="$TARGET" CARGO_NET_OFFLINE=true
+# the existing persistence integration tests start ../target/debug/worterbuch (hard coded)
+[ -e "$WT/target" ] || ln -s "$TARGET" "$WT/target"
 run_ns() { unshare -n sh -c "ip link set lo up; $1"; }
 echo "== (c) demo on the unchanged tree" >>"$LOG"
 run_ns "$DEMO" >>"$LOG" 2>&1; c=$?
